@@ -116,6 +116,11 @@ class World:
         self.t.connect('/b')
         self.sid = self.t.sids['/']
         self.sid_b = self.t.sids['/b']
+        # a bystander on the same namespace (it keeps the namespace's tables
+        # alive while the client is being terminated)
+        self.t2 = d.open()
+        self.t2.connect('/')
+        self.t2.drain()
         if pending_binary:
             # the client has sent the header of a binary event but not all
             # of its attachments when the terminations begin
@@ -143,7 +148,10 @@ class World:
         # a lock held by a descheduled actor must not block the running one
         # outside the scheduler's control
         for attr, val in list(m.__dict__.items()):
-            if isinstance(val, (type(threading.Lock()), SchedLock)):
+            if isinstance(val, type(threading.RLock())) or (
+                    isinstance(val, SchedLock) and val.reentrant):
+                setattr(m, attr, SchedLock(sched, reentrant=True))
+            elif isinstance(val, (type(threading.Lock()), SchedLock)):
                 setattr(m, attr, SchedLock(sched))
         eio = self.d.eio
         orig_send = eio.send_packet
@@ -211,6 +219,7 @@ def unwrap(w):
 def baseline_size():
     w = World(NoSched())
     w.t.lose()
+    w.t2.lose()
     w.d.transports.clear()
     unwrap(w)
     return G.measure(w.d.sio)
@@ -270,6 +279,13 @@ def run_schedule(ctx, causes, choices, rng, bound, line_level, base,
     sio = w.d.sio
     m = sio.manager
     residue = []
+    # the bystander is still served, then leaves too
+    by_sid = w.t2.sids.get('/')
+    if not m.is_connected(by_sid, '/') or \
+            set(sio.rooms(by_sid, '/')) != {by_sid}:
+        residue.append('bystander')
+    w.t2.lose()
+    w.d.clear_errors()
     if list(sio.rooms(w.sid, '/')):
         residue.append('rooms')
     if m.is_connected(w.sid, '/') or m.is_connected(w.sid_b, '/b'):
